@@ -37,6 +37,7 @@ CheckSwitch(e) ==
   \cup (IF e.ok /\ Cardinality(SelectorsOf(PostSel(e), e.rep)) > cap THEN {"SelectorCapRespected"} ELSE {})
   \cup (IF e.ok /\ sel[e.who].rep \in reported /\ ~(PostSel(e)[e.who].locked = e.t ++ e.unbondms)
         THEN {"SwitchAfterReportingLocksForUnbondingPeriod"} ELSE {})
+  \cup (IF e.ok /\ PostSel(e)[e.who].locked \prec sel[e.who].locked THEN {"SwitchNeverShortensARunningLock"} ELSE {})
 CheckUnjail(e) ==
   (IF e.ok /\ ~CanUnjail(rep, e.who, e.t) THEN {"UnjailOnlyAfterJailTime"} ELSE {})
   \cup (IF e.ok /\ PostRep(e)[e.who].jailed THEN {"UnjailReleases"} ELSE {})
